@@ -3,6 +3,7 @@ package main
 import (
 	"errors"
 	"fmt"
+	"io"
 	"math/rand"
 	"reflect"
 	"strings"
@@ -10,6 +11,7 @@ import (
 	"time"
 
 	am "github.com/hashicorp/go-argmapper"
+	"github.com/hashicorp/go-hclog"
 	"github.com/hashicorp/go-multierror"
 )
 
@@ -532,10 +534,29 @@ type World struct {
 	// Delay, when set (before any goroutine uses the world), is called at
 	// body entry to widen the window between entry and exit.
 	Delay func(fi int)
+	// TraceLog makes DoCall, DoConvert and DoRedefine pass a trace-level
+	// logger (writing to nowhere), which makes the library render its graphs
+	// and values as text; nothing else about the operation may change.
+	TraceLog bool
 }
 
+// caseTrace is set by the runner for a fixed, index-determined subset of the
+// cases: every world made in such a case logs at trace level.
+var caseTrace bool
+
+var traceLogger = hclog.New(&hclog.LoggerOptions{Level: hclog.Trace, Output: io.Discard})
+
 func NewWorld() *World {
-	return &World{origin: map[int64]*Origin{}, execs: map[int]int{}, specs: map[int]FuncSpec{}, errs: map[error]int{}, t0: time.Now()}
+	return &World{origin: map[int64]*Origin{}, execs: map[int]int{}, specs: map[int]FuncSpec{}, errs: map[error]int{}, t0: time.Now(), TraceLog: caseTrace}
+}
+
+// withTrace adds the trace logger to the options of an operation in a world
+// that asks for it.
+func withTrace(w *World, args []am.Arg) []am.Arg {
+	if w == nil || !w.TraceLog {
+		return args
+	}
+	return append([]am.Arg{am.Logger(traceLogger)}, args...)
 }
 
 // Now is the world's monotonic clock in nanoseconds.
@@ -1047,6 +1068,19 @@ func InstantiateIn(w *World, s Scenario, r *rand.Rand, targetDefaults ...am.Arg)
 // InputArg makes the option for one supplied value.
 func InputArg(l Label, id int64) am.Arg {
 	v := mk(l.Type, id).Interface()
+	// the same value can be spelled through several constructors (an empty
+	// name means type-only, an empty subtype means none): vary the spelling
+	// with the id
+	switch {
+	case l.Name == "" && l.Sub == "" && id%3 == 0:
+		return am.Named("", v)
+	case l.Name == "" && l.Sub == "" && id%3 == 1:
+		return am.Typed(v)
+	case l.Name == "" && l.Sub != "" && id%2 == 0:
+		return am.TypedSubtype(v, l.Sub)
+	case l.Name != "" && l.Sub == "" && id%2 == 0:
+		return am.Named(l.Name, v)
+	}
 	return am.NamedSubtype(l.Name, v, l.Sub)
 }
 
@@ -1214,7 +1248,7 @@ func DoCall(w *World, f *am.Func, args []am.Arg) (o Outcome) {
 			o.Events = w.EventsFrom(n)
 		}
 	}()
-	passed, check := withSpare(args)
+	passed, check := withSpare(withTrace(w, args))
 	defer func() { o.Touched = check() }()
 	o.Res = f.Call(passed...)
 	o.Err = o.Res.Err()
@@ -1264,7 +1298,7 @@ func DoConvert(w *World, t reflect.Type, args []am.Arg) (o Outcome) {
 			o.Events = w.EventsFrom(n)
 		}
 	}()
-	passed, check := withSpare(args)
+	passed, check := withSpare(withTrace(w, args))
 	defer func() { o.Touched = check() }()
 	o.Value, o.Err = am.Convert(t, passed...)
 	o.Class = classify(w, o.Err)
@@ -1287,7 +1321,7 @@ func DoRedefine(w *World, f *am.Func, args []am.Arg) (o Outcome) {
 			o.Events = w.EventsFrom(n)
 		}
 	}()
-	o.Func, o.Err = f.Redefine(args...)
+	o.Func, o.Err = f.Redefine(withTrace(w, args)...)
 	o.Class = classify(w, o.Err)
 	return
 }
